@@ -114,6 +114,10 @@ func cmdCheck(args []string) int {
 		all = true
 		useCache = false
 	}
+	if os.Getenv("GOVC_NOCACHE") != "" {
+		// cold run: no solver answer is taken from /verif/.cache
+		useCache = false
+	}
 	(&Discharger{Timeout: timeout, All: all}).Run(results)
 	groups := groupObligations(results)
 
